@@ -21,7 +21,9 @@ RULE = ("Grid (complete): initial store {old absent/present/active} x {new absen
         "bystanders {none, one, one active, two, two with one active} plus old == new, x one fault or none: step in "
         "{LISTSCRIPTS, GETSCRIPT, PUTSCRIPT, SETACTIVE, DELETESCRIPT} x kind in {NO, BYE, silence, close, applied then "
         "silence, applied then close}, plus quota refusal of the copy, x 8 body shapes (CRLF, LF, mixed, no final newline, "
-        "blank lines, multi-byte, empty, Unicode/VT/FF separators inside lines); native RENAMESCRIPT is run on the same states as the control. Then random stores, "
+        "blank lines, multi-byte, empty, Unicode/VT/FF separators inside lines); double faults (quota refusal or forced NO at "
+        "PUTSCRIPT/SETACTIVE/DELETESCRIPT followed by a second fault of any kind at the next occurrence of any step); a short "
+        "history on the same client before the rename (listing, change of the active script); native RENAMESCRIPT is run on the same states as the control. Then random stores, "
         "names, bodies, fault placements and recv segmentation. Non-trivial: a fault fired or the target existed. "
         "Distinct = grid cells (state, fault, body) / (state class, fault, outcome) for random runs.")
 COMPONENTS = {"real": ["sievelib.managesieve.Client.renamescript and everything it calls"],
@@ -68,6 +70,20 @@ def placements():
     return out
 
 
+# two faults in a row: a first refusal (quota-driven or forced NO) that a "work-around" might react to, then a second
+# fault at the next occurrence of a step
+FIRSTS = ["quota", (2, F_NO), (3, F_NO), (4, F_NO)]
+
+
+def double_placements():
+    out = []
+    for f in range(len(FIRSTS)):
+        for s in range(len(STEPS)):
+            for k in KINDS:
+                out.append(("double", f, s, k))
+    return out
+
+
 def all_cells():
     cells = []
     st = states()
@@ -80,6 +96,17 @@ def all_cells():
     for si in range(len(st)):
         for k in [None] + KINDS:
             cells.append((si, k, 0, 1))
+    # double faults (two body shapes)
+    dp = double_placements()
+    for si in range(len(st)):
+        for di in range(len(dp)):
+            for bi in (0, 7):
+                cells.append((si, ["d", di], bi, 0))
+    # a short history on the same client before the rename (listing, then a change of the active script)
+    for si in range(len(st)):
+        for bi in (0, 3):
+            for ph in (1, 2, 3):
+                cells.append((si, ["h", ph], bi, 0))
     return cells
 
 
@@ -151,8 +178,14 @@ def run(ch, config, res):
         si, pi, bi, native = cell
         state = st_all[si]
         body = BODIES[bi]
+        prehist = 0
         if native:
             placement = None if pi is None else (0, pi)
+        elif isinstance(pi, list) and pi[0] == "d":
+            placement = double_placements()[pi[1]]
+        elif isinstance(pi, list) and pi[0] == "h":
+            placement = None
+            prehist = pi[1]
         else:
             placement = pl_all[pi]
     else:
@@ -162,8 +195,14 @@ def run(ch, config, res):
             native = wl.flag("native", 1, 8)
             pi = wl.int("placement", len(pl_all))
             placement = pl_all[pi]
+            if wl.flag("double", 1, 4):
+                dp = double_placements()
+                pi = 1000 + wl.int("dplacement", len(dp))
+                placement = dp[pi - 1000]
+            prehist = wl.int("prehist", 4)
             body = gen.body(wl, "body", hostile=False) if wl.flag("plainbody", 1, 2) else BODIES[wl.int("body", len(BODIES))]
-    quota = placement == ("quota",)
+    double = placement is not None and placement[0] == "double"
+    quota = placement == ("quota",) or (double and FIRSTS[placement[1]] == "quota")
     cfg = ServerConfig(version=bool(native), max_scripts=10)
     world = World(ch, cfg, client_impl=config.get("client", "real"), read_timeout=5)
     srv = world.server
@@ -174,14 +213,38 @@ def run(ch, config, res):
     step_verbs = [b"RENAMESCRIPT"] if native else STEPS
     fired = [None]
 
+    stage = [0]
+
     def fault_hook(conn, dec, scope):
-        if placement is None or quota or isinstance(dec, str) or not armed[0]:
+        if placement is None or isinstance(dec, str) or not armed[0]:
+            return None
+        if double:
+            _, f, s2, k2 = placement
+            first = FIRSTS[f]
+            if stage[0] == 0:
+                if first == "quota":
+                    if dec.verb == b"PUTSCRIPT":
+                        stage[0] = 1       # this one is refused by the quota
+                    return None
+                if dec.verb == STEPS[first[0]]:
+                    stage[0] = 1
+                    first_fired[0] = True
+                    return first[1]
+                return None
+            if stage[0] == 1 and dec.verb == STEPS[s2]:
+                stage[0] = 2
+                fired[0] = (dec.verb, k2)
+                return k2
+            return None
+        if quota:
             return None
         s, k = placement
         if s < len(step_verbs) and dec.verb == step_verbs[s] and fired[0] is None:
             fired[0] = (dec.verb, k)
             return k
         return None
+
+    first_fired = [False]
 
     armed = [False]
     srv.fault_hook = fault_hook
@@ -191,6 +254,19 @@ def run(ch, config, res):
         with ch.scope("op#0"):
             o = world.call(client, "connect", "user", "password")
         if o.kind == "ret" and o.value is True:
+            if prehist:
+                # a short history on the same client: whatever it has seen before must not leak into the rename
+                with ch.scope("prehist"):
+                    world.call(client, "listscripts")
+                    if prehist >= 2:
+                        others = [k for k in srv.scripts if k != srv.active]
+                        tgt = others[0].decode() if others else ""
+                        world.call(client, "setactive", tgt)
+                    if prehist >= 3:
+                        world.call(client, "getscript", oldn)
+                        world.call(client, "listscripts")
+                        world.call(client, "setactive", "")
+                res.count("prehistories")
             before = srv.snapshot()
             armed[0] = True
             with ch.scope("op#1"):
@@ -205,7 +281,7 @@ def run(ch, config, res):
     res.digest = world.digest()
     res.sim_time = world.clock.now
     if fired[0]:
-        res.count("fault:%s@%s" % (FAULT_NAMES[fired[0][1]], fired[0][0].decode()))
+        res.count("fault:%s@%s%s" % (FAULT_NAMES[fired[0][1]], fired[0][0].decode(), "(second fault)" if double else ""))
     if quota:
         res.count("fault:quota-refusal")
     if cell is not None:
